@@ -169,13 +169,13 @@ def directed(rng, sch, ctxs):
     return out
 
 
-def gen_ctx(rng, sch):
+def gen_ctx(rng, sch, force_str=None):
     c = lg.gen_ctx(rng, sch, p_absent=rng.choice([0.0, 0.2, 0.5]))
     vals = list(c[1][1:])
 
     def put(name, v):
         vals[fi(sch, name)] = v
-    put("str", ("s", hay(rng)))
+    put("str", ("s", force_str if force_str is not None else hay(rng)))
     if rng.random() < 0.7:
         put("ostr", ("s", hay(rng, 60)))
     put("strs", ("arr", "bytes") + tuple(("s", hay(rng, 90)) for _ in range(rng.choice([0, 1, 2, 5]))))
@@ -201,7 +201,14 @@ def gen_ctx(rng, sch):
 def make_case(rng, t, r, mode, nrandom=3, nctx=4):
     sch = lg.rich_scheme(nil_ne=rng.random() < 0.5)
     g = lg.Gen(rng, sch, features=("index", "each", "quant", "oneof", "call", "vec", "mapbool", "inlist"), max_depth=3)
-    ctxs = tuple(gen_ctx(rng, sch) for _ in range(nctx))
+    # the second context's `str` has the length of the first one's and a different tail: the buffer-reuse phase of
+    # the harness then executes the long-lived filters on two inputs with the same address and length
+    c0 = gen_ctx(rng, sch)
+    s0 = c0[1][1:][fi(sch, "str")][1]
+    s1 = (s0[:-3] + b"zq!") if len(s0) >= 3 else bytes(reversed(s0 + b"q"))[:len(s0)]
+    if s1 == s0:
+        s1 = bytes((b ^ 1) for b in s0)
+    ctxs = (c0, gen_ctx(rng, sch, force_str=s1)) + tuple(gen_ctx(rng, sch) for _ in range(max(0, nctx - 2)))
     asts = directed(rng, sch, ctxs) + [g.gen_filter() for _ in range(nrandom)]
     lay = lg.Layout(rng)
     filters = tuple((render(sch, a, lay).encode(), a) for a in asts)
